@@ -28,3 +28,10 @@ def run(ctx):
     # (quick tier: the first 64 solved cases - the fixed families come first - go through the Coq model; the thorough tier takes all)
     SPEC["stages"] = [("F", solcore.stageF, P.stageF_v, 2, 64 if ctx.tier == "quick" else None)]
     core.run(ctx, SPEC)
+    # the heavily loaded bar of the shared generator once under Go's race detector (supporting evidence: whether a slip in code that
+    # loads the finite elements of a bar at the same time shows in the values is a matter of scheduling)
+    import random
+    from .. import gen_struct as G
+    from . import C08
+    many = G.gen_many_positions(random.Random(ctx.seed + 2), 22, 8)
+    ctx.coverage["race_detector_runs"] = C08.race_on(ctx, ["solve", "-e", "1e-3", "x.inkfem"], {"x.inkfem": many.text()}, "a bar with 22 point loads and 8 distributed loads")
